@@ -226,6 +226,8 @@ func runC13(c *Ctx) {
 	for _, s := range temporal {
 		if d, err := system.ParseDate(s); err == nil {
 			add(d, "@"+s)
+		} else {
+			c.Law(false, "C13/valid-literal", "a valid Date text is read", s, err.Error())
 		}
 	}
 	for _, s := range []string{"2020T", "2020-03T", "2020-03-09T", "2020-03-09T10", "2020-03-09T10Z", "2020-03-09T10:30", "2020-03-09T10:30+05:30", "2020-03-09T10:30:59", "2020-03-09T10:30:59Z", "2020-03-09T10:30:59-11:00",
@@ -234,11 +236,30 @@ func runC13(c *Ctx) {
 			add(d, "@"+s)
 		} else {
 			c.meta.Notes = append(c.meta.Notes, "pool literal does not parse: "+s)
+			c.Law(false, "C13/valid-literal", "a valid DateTime text (every precision, offsets up to +14:00) is read", s, err.Error())
 		}
 	}
 	for _, s := range []string{"10", "10:30", "10:30:59", "10:30:59.123", "00:00:00.000", "23:59:59.999", "10:30:59.120"} {
 		if d, err := system.ParseTime(s); err == nil {
 			add(d, "@T"+s)
+		} else {
+			c.Law(false, "C13/valid-literal", "a valid Time text is read", s, err.Error())
+		}
+	}
+	// every accepted spelling of a Boolean in every letter case, and integer strings around the int32 range
+	boolSpellings := map[string]bool{"true": true, "t": true, "yes": true, "y": true, "1": true, "1.0": true, "false": false, "f": false, "no": false, "n": false, "0": false, "0.0": false}
+	toB, cvB := fhirpath.MustCompile("%x.toBoolean()"), fhirpath.MustCompile("%x.convertsToBoolean()")
+	for sp, want := range boolSpellings {
+		variants := []string{sp, strings.ToUpper(sp), strings.ToUpper(sp[:1]) + sp[1:], sp[:1] + strings.ToUpper(sp[1:])}
+		if len(sp) > 2 {
+			variants = append(variants, sp[:2]+strings.ToUpper(sp[2:3])+sp[3:], strings.ToUpper(sp[:2])+sp[2:])
+		}
+		for _, v := range variants {
+			o := safeEval(func() (system.Collection, error) { return toB.Evaluate(nil, envVar("x", system.String(v))) })
+			o2 := safeEval(func() (system.Collection, error) { return cvB.Evaluate(nil, envVar("x", system.String(v))) })
+			c.Observe("boolean spelling "+v, true)
+			good := o.Err == nil && len(o.Coll) == 1 && o.Coll[0] == system.Boolean(want) && o2.Err == nil && len(o2.Coll) == 1 && o2.Coll[0] == system.Boolean(true)
+			c.Law(good, "C13/boolean-spellings", "the Boolean spellings true/t/yes/y/1/1.0 and false/f/no/n/0/0.0 convert in every letter case", fmt.Sprintf("%q", v), canonOutcome(o, nil)+" / convertsToBoolean "+canonOutcome(o2, nil))
 		}
 	}
 	// elements
@@ -322,6 +343,10 @@ func runC13(c *Ctx) {
 					class = "C13/toString-complex"
 				}
 				c.Law((cvtOut == "true") == (val != nil), class, "convertsToT() is true exactly when toT() is non-empty", in, "convertsTo="+cvtOut+" to="+toOut)
+			}
+			if toOut == "err" && cvtOut != "err" {
+				// toT() fails (the recorded toInteger finding): it yields no value, so convertsToT() must say false
+				c.Law(cvtOut == "false", "C13/converts-iff", "convertsToT() is true exactly when toT() is non-empty", in, "convertsTo="+cvtOut+" while to"+t+"() fails")
 			}
 			if val == nil {
 				c.Count("outcome:" + t + ":" + map[bool]string{true: "empty", false: "error"}[toOut == "ok:-"])
